@@ -244,6 +244,10 @@ func muxImpl(line string) string {
 				// a packet for a channel that does not exist
 				body := wDone(0xFD, 1, 0, 424242)
 				id := nchan + 1 + rng.Intn(50)
+				if rng.Intn(3) == 0 {
+					// an id above 255 whose low byte is the id of a channel that exists
+					id = 256*(1+rng.Intn(255)) + rng.Intn(nchan)
+				}
 				stream = append(stream, append([]byte{4, 0, 0, byte(len(body) + 8), byte(id >> 8), byte(id), 0, 0}, body...)...)
 				unknown++
 				continue
